@@ -144,13 +144,13 @@ func buildScenario(p *C06Plan, wrap stack.Options) (*scenario, error) {
 		case "prefix":
 			add(sc.honest[:k])
 		case "tallstale":
-			// a stale branch with MORE blocks but far less work than the honest prefix (every block 256 times lighter),
+			// a stale branch with MORE blocks but far less work than the honest prefix (every block 65536 times lighter),
 			// taller than anything a node will announce: heights of stale headers must not be mistaken for the tip's
 			if k < 1 {
 				k = 1
 			}
 			add(sc.honest[:k])
-			add(sc.u.Extend(nil, len(sc.honest)+extra+7, 98, 0x1e00ffff))
+			add(sc.u.Extend(nil, len(sc.honest)+extra+7, 98, 0x1f00ffff)) // 65536 times lighter: even 4 500 of them weigh less than one honest block
 		case "stalefork":
 			// a short stale branch of its own plus a prefix of the honest chain
 			add(sc.honest[:k])
